@@ -28,11 +28,19 @@ def main():
             except Exception as e:
                 print(e)
                 rc = 1
-    try:
-        ctx.erg_bin()
-    except Exception as e:
-        print(e)
-        rc = 1
+    for kw in (dict(), dict(features=[])):
+        try:
+            ctx.erg_bin(**kw)
+        except Exception as e:
+            print(e)
+            rc = 1
+    # release builds used by C04 (wrapping arithmetic) and C09 (release stack budget)
+    for pkg in ("consteval", "parsedepth"):
+        try:
+            ctx.harness(pkg, release=True)
+        except Exception as e:
+            print(e)
+            rc += 1
     # 3. extracted models
     for theme in sorted(os.listdir(COQ)):
         if os.path.exists(os.path.join(COQ, theme, "Extract.v")):
